@@ -17,7 +17,7 @@ thread_local! {
     /// items sharing a name (`Zz` and `v2::Zz`) next to the graph
     static GRAPH_MODE: std::cell::Cell<u8> = const { std::cell::Cell::new(0) };
 }
-const GRAPH_MODES: [&str; 3] = ["single-file", "multi-file", "single-file-with-a-pair-of-items-sharing-a-name"];
+const GRAPH_MODES: [&str; 4] = ["single-file", "multi-file", "single-file-with-a-pair-of-items-sharing-a-name", "single-file-next-to-generic-items-whose-parameters-are-named-like-the-nodes"];
 
 const LANGS: [Lang; 5] = [Lang::TypeScript, Lang::Kotlin, Lang::Swift, Lang::Go, Lang::Python];
 const CARRIERS: [&str; 11] = ["direct", "vec", "option", "map-value", "map-key", "array", "slice", "generic-arg", "box", "option-vec", "generic-arg-nested"];
@@ -200,6 +200,14 @@ pub fn check_graph(g: &Graph, lang: Lang, choices: &[u32], family: &str, acc: &m
         twin.mods = vec!["v2".into()];
         file.items.push(twin);
     }
+    if mode == 3 {
+        // type parameters are scoped to their item: `struct Shelf0<N00> { .. }` says nothing about the item N00
+        for (i, n) in g.names.iter().enumerate() {
+            let mut b = Item::strukt(&format!("Zshelf{i}"), vec![Field::new("items", Ty::Vec(Box::new(Ty::Param(n.clone())))), Field::new("n", Ty::Prim("u32"))]);
+            b.generics = vec![n.clone()];
+            file.items.push(b);
+        }
+    }
     if g.kinds.iter().any(|k| *k == "const") && !matches!(lang, Lang::TypeScript | Lang::Go | Lang::Python) {
         acc.out_of_scope += 1;
         return;
@@ -251,7 +259,7 @@ pub fn check_graph(g: &Graph, lang: Lang, choices: &[u32], family: &str, acc: &m
         }
         pos.push(p);
     }
-    let expected_defs: usize = (0..g.n).map(|u| defs_of_node(g, u, lang)).sum::<usize>() + if g.carrier.starts_with("generic-arg") { 1 } else { 0 } + if mode == 2 { 2 } else { 0 };
+    let expected_defs: usize = (0..g.n).map(|u| defs_of_node(g, u, lang)).sum::<usize>() + if g.carrier.starts_with("generic-arg") { 1 } else { 0 } + if mode == 2 { 2 } else if mode == 3 { g.n } else { 0 };
     if ok.out.defs.len() != expected_defs {
         let mut d = base.clone();
         d["expected_definition_count"] = json!(expected_defs);
@@ -625,7 +633,7 @@ pub fn run(args: &[String]) -> i32 {
             |ch, acc: &mut Acc| {
                 let edges = gen_edges(ch, 3);
                 let carrier = *ch.pick("carrier", &["direct", "vec"]);
-                let mode = 1 + ch.choose("run_as", 2) as u8;
+                let mode = 1 + ch.choose("run_as", 3) as u8;
                 let rot = ch.choose("rotation", 3);
                 let lang = *ch.pick("lang", &LANGS);
                 let g = Graph { n: 3, edges, names: names(3, rot), kinds: vec!["struct"; 3], carrier, renamed: None };
